@@ -358,6 +358,92 @@ func c17CanonExec(c c17Canon, x *pbt.Ctx) error {
 func TestC17(t *testing.T) {
 	pbt.Run(t, "C17", "canonical scenario: linear chain over two epochs, 1-10 validators, signer counts around the 2/3 threshold on the links genesis->cp1 and cp1->cp2, delivered as verification messages or inside the block header, forged header slots (garbage, wrong slot, non-validator, other link, unused slot) and corrupted messages that must not count, a restart at one of five positions; justified/finalized must be exactly what the counts imply; non-trivial = forged material or a restart",
 		pbt.Options{Sub: "canonical", Checks: pbt.Per(500, 40000)}, c17CanonGen, c17CanonExec)
+	pbt.Run(t, "C17", "skip-link scenario: cp1 without majority, cp2 justified by a supermajority link from genesis that skips cp1, then 1..n validators sign cp1 -> cp2 (before or after), optional restart; the soundness oracle must hold (cp1 neither justified nor finalized unless the direct link has a supermajority itself)",
+		pbt.Options{Sub: "skip-link", Checks: pbt.Per(200, 20000)}, c17SkipGen, c17SkipExec)
 	pbt.Run(t, "C17", "random block trees with valid and forged header signatures, bursts of valid and forged verification messages and restarts; after every event every checkpoint the node reports as justified/finalized (and LastJustified/LastFinalized) must be derivable from the valid signatures it was shown (supermajority of the parent epoch's validators on one link from a justifiable source; direct child for finalization); non-trivial = forged signatures or a restart between votes",
 		pbt.Options{Sub: "random", Checks: pbt.Per(150, 20000)}, evGen(c17Opt), c17Exec)
+}
+
+// skip-link scenario: the first checkpoint gets no majority, the second is justified by a
+// supermajority link that skips it (genesis -> cp2), then k validators sign the link cp1 -> cp2.
+// Unless that link itself has a supermajority (which is the known finding's shape), cp1 must
+// stay unjustified and must not be finalized, and cp2 stays justified.
+type c17Skip struct {
+	N       int  `json:"n"`
+	Epoch   int  `json:"epoch"`
+	K       int  `json:"k"`
+	First   bool `json:"first"`   // the cp1->cp2 signatures arrive before the skipping link is complete
+	Restart bool `json:"restart"`
+}
+
+func c17SkipGen(t *rapid.T) c17Skip {
+	n := rapid.IntRange(1, 10).Draw(t, "n")
+	return c17Skip{N: n, Epoch: rapid.IntRange(2, 4).Draw(t, "epoch"), K: rapid.IntRange(1, n).Draw(t, "k"), First: rapid.Bool().Draw(t, "first"), Restart: rapid.Bool().Draw(t, "restart")}
+}
+
+func c17SkipExec(c c17Skip, x *pbt.Ctx) error {
+	if c.N < 1 || c.N > 10 || c.Epoch < 2 || c.K < 0 || c.K > c.N {
+		return nil
+	}
+	td := ck.TreeDesc{Params: ck.Params{Epoch: uint64(c.Epoch), Validators: c.N, NodeKey: -1}}
+	for i := 0; i < 2*c.Epoch+1; i++ {
+		td.Blocks = append(td.Blocks, ck.BlockDesc{Parent: i})
+	}
+	h, err := newHist(evCase{Tree: td})
+	if err != nil {
+		return err
+	}
+	defer h.n.Stop()
+	w := h.w
+	cp1, cp2 := c.Epoch, 2*c.Epoch
+	thr := c.N*2/3 + 1
+	for i := 1; i <= cp2; i++ {
+		if _, err := h.step(ev{K: "b"}); err != nil {
+			return err
+		}
+	}
+	vote := func(src, tgt, from, to int) error {
+		vals := w.ValidatorsFor(tgt)
+		for v := from; v < to; v++ {
+			msg := w.Vote(ck.KeyIndex(vals[v]), src, tgt)
+			var verr error
+			_, hung, dump := callWithWatchdog(callLimit, func() error { verr = h.n.Chain.ProcessBlockVerification(msg); return nil })
+			if hung {
+				return hangError("ProcessBlockVerification", dump)
+			}
+			_ = verr // a refusal (e.g. a second vote by this validator for the same target height is fine) just does not count
+			if verr == nil {
+				h.ffg.observe(msg.PubKey, src, tgt, msg.Signature)
+			}
+		}
+		return nil
+	}
+	// the validators that sign cp1->cp2 are taken from the end of the list, the skipping link is signed from the front
+	if c.First {
+		if err := vote(cp1, cp2, c.N-c.K, c.N); err != nil {
+			return err
+		}
+	}
+	if err := vote(0, cp2, 0, thr); err != nil {
+		return err
+	}
+	if !c.First {
+		if err := vote(cp1, cp2, c.N-c.K, c.N); err != nil {
+			return err
+		}
+	}
+	if c.Restart {
+		if err := h.n.Restart(); err != nil {
+			return fmt.Errorf("restart failed: %v", err)
+		}
+	}
+	if _, err := h.step(ev{K: "b"}); err != nil {
+		return err
+	}
+	x.Class("skip n=%d", c.N)
+	x.NonTrivial = true
+	if h.ffg.supermajority(cp1, cp2) {
+		x.Class("direct-link-has-supermajority-too")
+	}
+	return checkFFGSound(h, x, fmt.Sprintf("skip-link scenario n=%d k=%d first=%v restart=%v", c.N, c.K, c.First, c.Restart))
 }
